@@ -230,6 +230,8 @@ structure St where
   out : List Tagged        -- most recent first
   deriving Repr
 
+/-- `badDone` is no longer produced (a `done` record without `<status> <name>` is passed through as text:
+`C18.replay_never_fails_on_done`); the constructor is kept for the driver. -/
 inductive CErr | outOfFuel | unknownTarget | badDone | emptyText
   deriving DecidableEq, Repr
 
@@ -284,7 +286,9 @@ def lines (recurse : List Char → St → Except CErr (St × Nat)) (optU optR : 
         else lines recurse optU optR t ls { st with already := fixname :: st.already } intr w
       else if g.kind = kDone then
         match parseDoneText g.text with
-        | none => .error .badDone
+        -- redo always writes `<status> <name>`; anything else was written by a script and is passed through like other
+        -- text (`interrupted` is left alone, as in the last branch)
+        | none => lines recurse optU optR t ls (emit st t (.raw (cleanLine l))) intr (w + 1)
         | some (rv, name) =>
           lines recurse optU optR t ls (emit st t (.record kDone (rv ++ ' ' :: normpath (resolve t name)))) intr (w + 1)
       else
